@@ -11,6 +11,20 @@ BASE_NOTE = ("Trusted base: rustc front end/MIR construction as dumped by engine
              "crates assumed total. ")
 
 CLAIMS = {
+    "C16": dict(
+        category="other",
+        technique="abstract evaluation of the Display impls (decoding the compiled format templates) + PEG matching of the printed forms against the grammar + exhaustive lexical-class check",
+        text=("The Display impls of the AST are evaluated abstractly for every Instruction variant and operand shape (2125 shapes) "
+              "with a model of core::fmt that decodes the compiled format templates; the resulting symbolic text (literals plus "
+              "numeric, label and padding tokens) is instantiated with representatives of each token class, matched with a PEG "
+              "matcher against the grammar file and read back: it must be claimed - under ordered choice - by the alternative "
+              "of the same variant with the same operands. The numeric printers are checked against the numeric readers "
+              "exhaustively over their lexical classes (all bytes in hex and decimal, all words in decimal). Label, comment "
+              "and instruction lines and whole programs (header + lines) must re-parse to the same lines."),
+        note=("One genuine defect found and fixed (Display for Asm: padded header, trailing newline). Round-trip equality of "
+              "arbitrary runtime strings is not decided as such; the decided part is printer-subset-of-grammar and back to the "
+              "same constructor, with labels/comments restricted to text their grammar rules accept."),
+        design="3/C16"),
     "C02": dict(
         category="other",
         technique="abstract interpretation of the translator on exhaustively enumerated abstract AST shapes, compared with a reference encoding table",
